@@ -6,6 +6,7 @@ import (
 	"github.com/jsightapi/jsight-schema-go-library/internal/lexeme"
 	"github.com/jsightapi/jsight-schema-go-library/notations/jschema/internal/schema"
 	"github.com/jsightapi/jsight-schema-go-library/notations/jschema/internal/schema/constraint"
+	"sort"
 )
 
 // Checks the SAMPLE SCHEMA and all TYPES for compliance with all RULES.
@@ -32,8 +33,15 @@ func CheckRootSchema(rootSchema *schema.Schema) {
 		c.checkNode(rootSchema.RootNode(), rootSchema.TypesList())
 	}
 
-	for name, typ := range rootSchema.TypesList() {
-		c.checkType(name, typ, rootSchema.TypesList())
+	// Check the types in a fixed order: when several types are invalid, the
+	// reported error must not depend on Go's randomised map iteration.
+	names := make([]string, 0, len(rootSchema.TypesList()))
+	for name := range rootSchema.TypesList() {
+		names = append(names, name)
+	}
+	sort.Strings(names)
+	for _, name := range names {
+		c.checkType(name, rootSchema.TypesList()[name], rootSchema.TypesList())
 	}
 }
 
